@@ -168,3 +168,28 @@ PROPS["C09"] = Meta(
          "additionally under generated schedules, bit-identical to the sequential one; non-trivial = some target cell has no source cell at its level and vice versa, >= 1 M2L and >= 1 P2PTsm",
     assumptions=SCHED_ASSUME,
 )
+
+
+def periodic(rt, tsmp, dim=3):
+    name = "t_per_%s%s_d%d" % ("omp" if rt else "seq", "_tsm" if tsmp else "", dim)
+    defs = {"DIM": dim, "RT": rt, "TSMP": tsmp, "NX": 0}
+    if rt == 1:
+        return Bin(name, ["props/t_periodic.cpp", "runtimes/mockgomp.cpp"], defs, cxxflags=["-fopenmp"], ldflags=["-lpthread"])
+    return Bin(name, ["props/t_periodic.cpp"], defs, ldflags=["-lpthread"])
+
+
+PROPS["C10"] = Meta(
+    jobs=[
+        Job("per-seq-d3", periodic(0, 0, 3), quick=(4, 300, 100), thorough=(16, 4000, 100)),
+        Job("per-seq-d2", periodic(0, 0, 2), quick=(3, 300, 100), thorough=(16, 4000, 100)),
+        Job("per-seq-d1", periodic(0, 0, 1), quick=(2, 300, 100), thorough=(16, 4000, 100)),
+        Job("per-omp-d3", periodic(1, 0, 3), quick=(3, 200, 100), thorough=(16, 3000, 100)),
+        Job("ptsm-d3", periodic(0, 1, 3), quick=(3, 300, 100), thorough=(16, 4000, 100)),
+        Job("ptsm-d2", periodic(0, 1, 2), quick=(1, 300, 100), thorough=(16, 4000, 100)),
+    ],
+    rule="periodic FmmCase: height 2..Hmax(Dim), extra levels -1..5, per-dimension box widths, all groupings, particles incl. both periodic boundary layers; the documented four-call "
+         "sequence with the generating-function kernel on the real tree (periodic ordering) and on the virtual levels (cell width from the level argument); oracle = closed-form value of "
+         "'one contribution from every image in the reported repetition interval, none from itself', real-tree multipoles, interaction multiset of the real tree against the periodic "
+         "definitions, argument checks on real and virtual levels, reported repetition counts consistent; non-trivial = extra levels >= 1 and a particle in a boundary leaf",
+    assumptions=SCHED_ASSUME,
+)
